@@ -431,3 +431,54 @@ Proof.
     + destruct (a_full s <=? dist); [cbn [pbind athen snd]; apply peq_refl|].
       destruct (len <=? 0); [cbn [pbind]; apply peq_refl|]. apply IH.
 Qed.
+
+(* ---- LZMADecoder::decode(lz, rc) as a whole: repeat_pending, the loop, the trailing normalize -- *)
+Theorem lzma_decode_abs c w hist d t n :
+  Rel w hist -> coder_ok c (w_full w) -> w_pos w <= w_limit w ->
+  Z.of_nat n = w_limit w - w_pos w ->
+  (0 < w_pending_len w -> 0 <= w_pending_dist w < w_full w) ->
+  match run_rc (aproduce n (mkAstate c hist (w_size w) (w_pending_len w) (w_pending_dist w))) d t with
+  | Ok (s2, st2, d2, t2) =>
+      exists w1, lzma_decode c w d t =
+                 Ok (a_coder s2, w1, st2, match st2 with Ok _ => rdec_normalize d2 | _ => d2 end, t2) /\
+                 loop_rel w hist (a_coder s2, w1, st2) (s2, st2)
+  | Err e => lzma_decode c w d t = Err e
+  | Panic e => lzma_decode c w d t = Panic e
+  | Fuel => lzma_decode c w d t = Fuel
+  end.
+Proof.
+  intros R Hc Hpl Hn Hpd.
+  pose proof R as [[Hs Hs16] [[Hp0 Hp1] Hp2] [Hf [Hpf Hnw]] Hl Hm Hcells Hem Hpe].
+  unfold lzma_decode, lzwin_repeat_pending.
+  destruct (Z.ltb_spec 0 (w_pending_len w)) as [Hpos|Hzero].
+  - (* a pending copy is resumed first *)
+    specialize (Hpd Hpos).
+    destruct (repeat_rel w hist (w_pending_dist w) (w_pending_len w) R Hpl Hpd ltac:(lia))
+      as (w0 & Hrp & R0 & Hpl0 & Hpd0 & Hst0 & Hli0 & Hsz0 & Hpo0).
+    rewrite Hrp.
+    set (m := Z.min (w_limit w - w_pos w) (w_pending_len w)) in *.
+    rewrite (aproduce_pending (Z.to_nat m) n) by (cbn [a_pend_len]; unfold m; lia).
+    cbn [a_coder a_hist a_dict a_pend_len a_pend_dist].
+    assert (Hfull0 : w_full w <= w_full w0).
+    { destruct R0 as [_ _ [Hf0 _] _ _ _ _ _]. rewrite Hf0, Hf, hcopy_length. lia. }
+    pose proof (decode_loop_abs (n - Z.to_nat m) (Z.to_nat (w_limit w0 - w_pos w0)) c w0
+                  (hcopy hist (w_pending_dist w) (Z.to_nat m)) R0 (coder_ok_mono _ _ _ Hc Hfull0)) as HL.
+    rewrite Hsz0, Hpl0, Hpd0 in HL.
+    replace (w_pending_len w - Z.of_nat (Z.to_nat m)) with (w_pending_len w - m) by (unfold m; lia).
+    specialize (HL ltac:(lia) ltac:(unfold m in *; lia) ltac:(unfold m in *; lia)).
+    specialize (HL ltac:(intros; unfold m in *; split; lia)).
+    pose proof (run_rc_peq _ _ _ HL d t) as HR.
+    destruct (run_rc (aproduce (n - Z.to_nat m) _) d t) as [[[[s2 st2] d2] t2]|e|e|];
+      destruct (run_rc (decode_loop _ c w0) d t) as [[[[[c1 w1] st1] d1] t1]|e1|e1|]; try contradiction; try (subst; reflexivity).
+    destruct HR as (Hrel & -> & ->).
+    pose proof Hrel as (E1 & E2 & _). subst st2 c1. cbn [snd fst].
+    exists w1. split; [destruct st1; reflexivity|].
+    eapply loop_rel_step; [exact Hrel | lia | lia | lia | lia |]. rewrite hcopy_length. lia.
+  - pose proof (decode_loop_abs n (Z.to_nat (w_limit w - w_pos w)) c w hist R Hc Hpl Hn ltac:(lia) ltac:(intros; lia)) as HL.
+    pose proof (run_rc_peq _ _ _ HL d t) as HR.
+    destruct (run_rc (aproduce n _) d t) as [[[[s2 st2] d2] t2]|e|e|];
+      destruct (run_rc (decode_loop _ c w) d t) as [[[[[c1 w1] st1] d1] t1]|e1|e1|]; try contradiction; try (subst; reflexivity).
+    destruct HR as (Hrel & -> & ->).
+    pose proof Hrel as (E1 & E2 & _). subst st2 c1. cbn [snd fst].
+    exists w1. split; [destruct st1; reflexivity | exact Hrel].
+Qed.
